@@ -56,6 +56,18 @@ _BIN = {
     ast.BitAnd: operator.and_,
     ast.BitXor: operator.xor,
 }
+_IBIN = {
+    ast.Add: operator.iadd,
+    ast.Sub: operator.isub,
+    ast.Mult: operator.imul,
+    ast.Div: operator.itruediv,
+    ast.FloorDiv: operator.ifloordiv,
+    ast.Mod: operator.imod,
+    ast.Pow: operator.ipow,
+    ast.BitOr: operator.ior,
+    ast.BitAnd: operator.iand,
+    ast.BitXor: operator.ixor,
+}
 _CMP = {
     ast.Eq: operator.eq,
     ast.NotEq: operator.ne,
@@ -477,7 +489,7 @@ class Evaluator:
             if st.value is not None:
                 self._assign(st.target, self.ev(st.value))
         elif isinstance(st, ast.AugAssign):
-            f = _BIN.get(type(st.op))
+            f = _IBIN.get(type(st.op))  # in-place semantics: `s |= t` mutates a set / list exactly as Python does
             if f is None:
                 raise Unfoldable("augmented op")
             load = ast.copy_location(_as_load(st.target), st.target)
